@@ -106,7 +106,11 @@ def parseState (j : Json) : Except String ParsedState := do
   let na ← parseSlot parseN (fldD j "n_attr" Json.null)
   let ni ← parseSlot parseN (fldD j "n_item" Json.null)
   let items' := if kind == "dict" || kind == "objdict" then items else []
-  let attrs' := if hasAttrs then attrs else []
+  -- a real dict / list state also answers `getattr` with its own methods
+  let attrs' := if hasAttrs then attrs
+    else if kind == "dict" then methodAttrs "dict".toList dictMethodNames
+    else if kind == "seq" then methodAttrs "list".toList listMethodNames
+    else []
   return { target := some { subscriptable := sub, items := items', attrs := attrs' },
            u := ⟨if hasAttrs then ua else .absent, itemSlot kind ui⟩,
            n := ⟨if hasAttrs then na else .absent, itemSlot kind ni⟩,
@@ -155,7 +159,7 @@ def runSyn (j : Json) : Except String Json := do
   let pre ← (← arr (fldD j "pre_errors" (Json.arr #[]))).mapM chars
   let elemT := (chain.head?.map (·.target)).getD default
   let targets : List Target :=
-    [{ subscriptable := true, items := kwargs, attrs := [] }] ++ st.target.toList ++
+    [kwTarget kwargs] ++ st.target.toList ++
     [{ subscriptable := false, items := [], attrs := vattrs }, elemT]
   let env : Env := { targets := targets, uState := st.u, nState := st.n,
                      uAnc := chain.map (·.u), nAnc := chain.map (·.n),
@@ -177,7 +181,12 @@ def runSyn (j : Json) : Except String Json := do
   let nFound := match findTransformer env.nState env.nAnc env.nBuiltin with
     | .ok (some _) => true
     | _ => false
-  let inScope := elemT.items.isEmpty &&
+  let usedKeys : List Str := match msg with
+    | .plain s => placeholders s
+    | .plural s p k => k :: (placeholders s ++ placeholders p)
+  -- KF-C16-d: a used key that only the keyword dict's own attributes answer first
+  let kwShadow := usedKeys.any (fun k => (kwargs.lookup k).isNone && dictMethodNames.contains k)
+  let inScope := !kwShadow && elemT.items.isEmpty &&
     (match msg with | .plain _ => true | .plural _ _ _ => !nFound)
   let specRes : Option Str := match msg with
     | .plain s => Spec.expandPlain specU src s
@@ -208,7 +217,8 @@ def runBuiltin (j : Json) : Except String Json := do
   let sl {α} (x : Option α) : Slot α := match x with | some f => .present (some f) | none => .absent
   let noSt {α} : StateSlots α := ⟨.absent, .notSubscriptable⟩
   let stateTarget : List Target :=
-    if place == "state-dict" then [{ subscriptable := true, items := [], attrs := [] }]
+    if place == "state-dict" then
+      [{ subscriptable := true, items := [], attrs := methodAttrs "dict".toList dictMethodNames }]
     else if place == "state-obj" then [{ subscriptable := false, items := [], attrs := [] }]
     else []
   let uState : StateSlots UTr :=
